@@ -4,7 +4,7 @@ CFG = {'assumptions': ['the value is acyclic and built from the supported kinds 
                  '(unsafe.Sizeof constants, compared with the implementation on every run through the one-level exhaustive cases)',
                  'the total stays below 2^63 (Go int cannot overflow on any value that fits in memory)'],
  'files': ['size/sizeof.go'],
- 'go': {'size.Of': 'size.Of', 'size.Stat': 'size.Stat (number in the first line)'},
+ 'go': {'size.Of': 'size.Of', 'size.Of/known': 'size.Of', 'size.Stat': 'size.Stat (number in the first line)'},
  'rule': 'a case is a Go value tree written in val syntax; the executor BUILDS the value with reflect (StructOf/SliceOf/MapOf/'
          'ArrayOf/PtrTo, interface{} and method-carrying interface slots, four hand-declared types with unexported fields incl. '
          'the recursive struct of TestSizeStat) and calls size.Of and size.Stat(v, depth in {-1,0,1,2,10}, maxItem in {0,1,3,100}); '
